@@ -30,6 +30,9 @@ impl TrakBox {
             size += edts.box_size();
         }
         size += self.mdia.box_size();
+        if let Some(ref meta) = self.meta {
+            size += meta.box_size();
+        }
         size
     }
 }
@@ -129,6 +132,9 @@ impl<W: Write> WriteBox<&mut W> for TrakBox {
             edts.write_box(writer)?;
         }
         self.mdia.write_box(writer)?;
+        if let Some(ref meta) = self.meta {
+            meta.write_box(writer)?;
+        }
 
         Ok(size)
     }
